@@ -7,7 +7,7 @@
  *   drv_merror run TABLE SEED FROM TO
  *       TABLE: text rendering of the configuration table exported by TLC
  *       from MErrorTable.tla, one row per line:
- *         id type rows cols sn st grid kind vec ud
+ *         id type rows cols sn st grid kind vec ud sh
  * env: VT_TRACE=<path> (default stdout), SC_TIMEOUT=<seconds per solve>,
  *      SC_TMP=<directory for saved calibration files>
  *
@@ -26,6 +26,7 @@ typedef struct cfg {
     char kind[12];
     char vec[8];
     char ud[8];			/* "-", "c1", "c2": unevenly determined columns */
+    char sh[8];			/* shape of the declared noise over frequency */
 } cfg_t;
 
 static int read_row(const char *path, int row, cfg_t *c)
@@ -40,9 +41,9 @@ static int read_row(const char *path, int row, cfg_t *c)
     }
     while (fgets(line, sizeof(line), fp) != NULL) {
 	if (n++ == row) {
-	    if (sscanf(line, "%d %7s %d %d %d %d %7s %11s %7s %7s", &c->id,
+	    if (sscanf(line, "%d %7s %d %d %d %d %7s %11s %7s %7s %7s", &c->id,
 			c->type, &c->r, &c->c, &c->sn, &c->st, c->grid,
-			c->kind, c->vec, c->ud) == 10)
+			c->kind, c->vec, c->ud, c->sh) == 11)
 		ok = 0;
 	    break;
 	}
@@ -202,13 +203,58 @@ typedef struct noise {
     int n;			/* points of the declared vectors */
     int have_f;			/* frequency_vector given */
     int have_tr;
-    double f[8], nf[8], tr[8];
+    double f[12], nf[12], tr[12];
 } noise_t;
 
 /*
+ * Shape of the declared noise over the calibration band, as multipliers of
+ * the base values 10^-sn and 10^-st; x is the position in the band (0 at
+ * the first, 1 at the last calibration frequency; the linear shapes stay
+ * positive a little beyond the band, where own grids have their end points):
+ *   const  1, 1
+ *   rise   noise floor rising, tracking falling
+ *   cross  the same over almost two decades: tracking dominates at the low
+ *          end, the noise floor at the high end
+ *   step   (by calibration frequency index k of n) one level for the first
+ *          half, another for the second, floor and tracking opposite
+ */
+static void shape_at(const cfg_t *c, double x, int k, int n, double *mnf,
+	double *mtr)
+{
+    if (strcmp(c->sh, "rise") == 0) {
+	*mnf = 0.1 + 0.8 * x;
+	*mtr = 0.95 - 0.8 * x;
+    } else if (strcmp(c->sh, "cross") == 0) {
+	*mnf = 0.02 + 0.9 * x;
+	*mtr = 0.95 - 0.9 * x;
+    } else if (strcmp(c->sh, "step") == 0) {
+	int hi = k >= 0 ? 2 * k >= n : x >= 0.5;
+
+	*mnf = hi ? 0.05 : 1.0;
+	*mtr = hi ? 1.0 : 0.05;
+    } else {
+	*mnf = 1.0;
+	*mtr = 1.0;
+    }
+}
+
+static double band_x(const sc_scn_t *sc, double f)
+{
+    if (sc->nf < 2)
+	return 0.0;
+    return (f - sc->f[0]) / (sc->f[sc->nf - 1] - sc->f[0]);
+}
+
+/*
  * Declared vectors for the configuration and the true standard deviations at
- * the calibration frequencies (sc->noise_nf / noise_tr, scaled by `amp`:
- * 1 = noise of exactly the declared size, 0 = exact data).
+ * the calibration frequencies.  Forms (grid): "one" a single value; "cal"
+ * one value per calibration frequency, frequency_vector NULL; own grids:
+ * "two" two points just outside the band (the line through them), "n" four
+ * or more points among which every calibration frequency (values at the
+ * points are what counts), "same" as many points as calibration frequencies
+ * but at other positions (first, then bunched right above it, last), values
+ * on a straight line -- the natural cubic spline through collinear points
+ * is that line.
  */
 static void make_noise(sc_scn_t *sc, const cfg_t *c, vt_rng_t *rng,
 	noise_t *nz, double true_nf[SC_MAXF], double true_tr[SC_MAXF])
@@ -218,7 +264,10 @@ static void make_noise(sc_scn_t *sc, const cfg_t *c, vt_rng_t *rng,
     const int contrast = strcmp(c->kind, "iacc") == 0 ? -1 :
 	strcmp(c->kind, "irej") == 0 ? 1 : 0;
     const int on_nf = strcmp(c->vec, "nf") == 0;
+    const double f_lo = sc->f[0], f_hi = sc->f[sc->nf - 1];
+    double mnf, mtr;
 
+    (void)rng;
     memset(nz, 0, sizeof(*nz));
     nz->have_tr = c->st != 0;
     if (strcmp(c->grid, "one") == 0) {
@@ -234,9 +283,9 @@ static void make_noise(sc_scn_t *sc, const cfg_t *c, vt_rng_t *rng,
     if (strcmp(c->grid, "cal") == 0) {
 	nz->n = sc->nf;
 	for (int k = 0; k < sc->nf; ++k) {
-	    /* stay inside the stated ranges: vary downwards */
-	    nz->nf[k] = true_nf[k] = nf0 * (0.3 + 0.7 * vt_unit(rng));
-	    nz->tr[k] = true_tr[k] = tr0 * (0.3 + 0.7 * vt_unit(rng));
+	    shape_at(c, band_x(sc, sc->f[k]), k, sc->nf, &mnf, &mtr);
+	    nz->nf[k] = true_nf[k] = nf0 * mnf;
+	    nz->tr[k] = true_tr[k] = tr0 * mtr;
 	}
 	return;
     }
@@ -244,75 +293,102 @@ static void make_noise(sc_scn_t *sc, const cfg_t *c, vt_rng_t *rng,
     if (contrast != 0) {
 	/*
 	 * The vector under test falls (iacc) or rises (irej) by a factor of
-	 * 100 along a straight line over the grid; the (single) calibration
-	 * frequency lies strictly inside the last segment, at 99 % of the
-	 * span.  A natural cubic spline through collinear points is that
-	 * line, so the value at the calibration frequency is known to the
-	 * harness without evaluating any spline.
+	 * 100 along a straight line over the grid.  "two" / "n": one
+	 * calibration frequency strictly inside the last segment, at 99 % of
+	 * the span.  "same": three or more calibration frequencies and as
+	 * many grid points: the first, points bunched at 1 %, 2 % .. of the
+	 * span, the last -- so that the k-th grid point is nowhere near the
+	 * k-th calibration frequency.
 	 */
 	const double first = contrast < 0 ? 0.01 : 100.0;
-	const double fa = 0.5 * sc->f[0];
-	const double fb = fa + (sc->f[0] - fa) / 0.99;
-	double t_cal = (sc->f[0] - fa) / (fb - fa);
+	double fa, fb;
 
-	nz->n = strcmp(c->grid, "two") == 0 ? 2 : 4 + vt_below(rng, 3);
+	if (strcmp(c->grid, "same") == 0) {
+	    fa = 0.98 * f_lo;
+	    fb = 1.02 * f_hi;
+	    nz->n = sc->nf;
+	    for (int i = 0; i < nz->n; ++i)
+		nz->f[i] = i == nz->n - 1 ? fb : fa + 0.01 * i * (fb - fa);
+	} else {
+	    fa = 0.5 * f_lo;
+	    fb = fa + (f_lo - fa) / 0.99;
+	    nz->n = strcmp(c->grid, "two") == 0 ? 2 : 4 + vt_below(rng, 3);
+	    for (int i = 0; i < nz->n; ++i)
+		nz->f[i] = fa + (fb - fa) * i / (nz->n - 1);
+	}
 	for (int i = 0; i < nz->n; ++i) {
-	    double t = (double)i / (double)(nz->n - 1);
+	    double t = (nz->f[i] - fa) / (fb - fa);
 	    double v = first + t * (1.0 - first);
 
-	    nz->f[i] = fa + t * (fb - fa);
 	    nz->nf[i] = nf0 * (on_nf ? v : 1.0);
 	    nz->tr[i] = tr0 * (!on_nf ? v : 1.0);
 	}
-	true_nf[0] = nf0 * (on_nf ? first + t_cal * (1.0 - first) : 1.0);
-	true_tr[0] = tr0 * (!on_nf ? first + t_cal * (1.0 - first) : 1.0);
+	for (int k = 0; k < sc->nf; ++k) {
+	    double t = (sc->f[k] - fa) / (fb - fa);
+	    double v = first + t * (1.0 - first);
+
+	    true_nf[k] = nf0 * (on_nf ? v : 1.0);
+	    true_tr[k] = tr0 * (!on_nf ? v : 1.0);
+	}
 	return;
     }
-    if (strcmp(c->grid, "two") == 0) {
-	/* the line through two points, evaluated by the harness */
-	const double f0 = 0.5 * sc->f[0], f1 = 2.0 * sc->f[sc->nf - 1];
-	const double a_nf = nf0 * (0.3 + 0.7 * vt_unit(rng));
-	const double b_nf = nf0 * (0.3 + 0.7 * vt_unit(rng));
-	const double a_tr = tr0 * (0.3 + 0.7 * vt_unit(rng));
-	const double b_tr = tr0 * (0.3 + 0.7 * vt_unit(rng));
+    if (strcmp(c->grid, "two") == 0 || strcmp(c->grid, "same") == 0) {
+	/* values on a line in frequency: the shape, continued a little
+	 * beyond the band; evaluated by the harness */
+	const double span = sc->nf > 1 ? f_hi - f_lo : f_lo;
+	const double fa = f_lo - 0.005 * span, fb = f_hi + 0.005 * span;
 
-	nz->n = 2;
-	nz->f[0] = f0;
-	nz->f[1] = f1;
-	nz->nf[0] = a_nf;
-	nz->nf[1] = b_nf;
-	nz->tr[0] = a_tr;
-	nz->tr[1] = b_tr;
+	nz->n = strcmp(c->grid, "two") == 0 ? 2 : sc->nf;
+	for (int i = 0; i < nz->n; ++i) {
+	    if (nz->n == 2)
+		nz->f[i] = i ? fb : fa;
+	    else
+		nz->f[i] = i == nz->n - 1 ? fb : fa + 0.01 * i * (fb - fa);
+	    shape_at(c, band_x(sc, nz->f[i]), -1, 0, &mnf, &mtr);
+	    nz->nf[i] = nf0 * mnf;
+	    nz->tr[i] = tr0 * mtr;
+	}
 	for (int k = 0; k < sc->nf; ++k) {
-	    double t = (sc->f[k] - f0) / (f1 - f0);
-
-	    true_nf[k] = a_nf + t * (b_nf - a_nf);
-	    true_tr[k] = a_tr + t * (b_tr - a_tr);
+	    shape_at(c, band_x(sc, sc->f[k]), -1, 0, &mnf, &mtr);
+	    true_nf[k] = nf0 * mnf;
+	    true_tr[k] = tr0 * mtr;
 	}
 	return;
     }
     /* "n": every calibration frequency is a grid point; extra points below,
-     * between and above; the values at the points are arbitrary */
+     * between and above */
     {
 	int n = 0;
 
-	nz->f[n++] = 0.4 * sc->f[0];
-	nz->f[n++] = 0.7 * sc->f[0];
+	nz->f[n++] = 0.4 * f_lo;
+	nz->f[n++] = 0.7 * f_lo;
 	for (int k = 0; k < sc->nf; ++k) {
 	    nz->f[n++] = sc->f[k];
-	    if (k + 1 < sc->nf && n < 6)
+	    if (k + 1 < sc->nf && n < 9)
 		nz->f[n++] = 0.5 * (sc->f[k] + sc->f[k + 1]);
 	}
-	nz->f[n++] = 1.5 * sc->f[sc->nf - 1];
+	nz->f[n++] = 1.5 * f_hi;
 	nz->n = n;
 	for (int i = 0; i < n; ++i) {
-	    nz->nf[i] = nf0 * (0.3 + 0.7 * vt_unit(rng));
-	    nz->tr[i] = tr0 * (0.3 + 0.7 * vt_unit(rng));
+	    double x = band_x(sc, nz->f[i]);
+	    int kk = -1;
+
 	    for (int k = 0; k < sc->nf; ++k) {
-		if (nz->f[i] == sc->f[k]) {
-		    true_nf[k] = nz->nf[i];
-		    true_tr[k] = nz->tr[i];
-		}
+		if (nz->f[i] == sc->f[k])
+		    kk = k;
+	    }
+	    x = x < 0.0 ? 0.0 : x > 1.0 ? 1.0 : x;
+	    shape_at(c, x, kk, sc->nf, &mnf, &mtr);
+	    /* off the calibration frequencies the values are arbitrary */
+	    if (kk < 0) {
+		mnf *= 0.5 + 0.5 * vt_unit(rng);
+		mtr *= 0.5 + 0.5 * vt_unit(rng);
+	    }
+	    nz->nf[i] = nf0 * mnf;
+	    nz->tr[i] = tr0 * mtr;
+	    if (kk >= 0) {
+		true_nf[kk] = nz->nf[i];
+		true_tr[kk] = nz->tr[i];
 	    }
 	}
     }
@@ -399,6 +475,30 @@ static int compare_saved(const char *path, const char *na, const char *nb,
     }
     *same = worst <= rel_tol * (scale > 1.0 ? scale : 1.0);
     return 0;
+}
+
+/* numbers of calibrations na and nb at frequency index j of nf agree to
+ * rel_tol of the largest term at that frequency: 1 / 0, -1 unreadable */
+static int compare_saved_at(const char *path, const char *na, const char *nb,
+	int j, int nf, double rel_tol)
+{
+    int ca = saved_numbers(path, na, num_a, MAXNUM);
+    int cb = saved_numbers(path, nb, num_b, MAXNUM);
+    double scale = 1.0, worst = 0.0;
+    int per;
+
+    if (ca <= 0 || ca != cb || ca % nf != 0)
+	return -1;
+    per = ca / nf;
+    for (int i = j * per; i < (j + 1) * per; ++i) {
+	double a = strtod(num_a[i], NULL), b = strtod(num_b[i], NULL);
+
+	if (fabs(a) > scale)
+	    scale = fabs(a);
+	if (!(fabs(a - b) <= worst))
+	    worst = fabs(a - b);
+    }
+    return worst <= rel_tol * scale;
 }
 
 /* --------------------------------------------------------------- solves */
@@ -523,7 +623,11 @@ static void run_case(const char *table, uint64_t seed, int row)
     }
     vt_seed(&rng, seed * 1000003ull + (uint64_t)row * 7919ull + 17);
     nseed = vt_u64(&rng);
-    if (strcmp(c.kind, "iacc") == 0 || strcmp(c.kind, "irej") == 0)
+    if (strcmp(c.grid, "same") == 0)
+	nf = 3 + vt_below(&rng, 3);		/* needs interior points */
+    else if (strcmp(c.sh, "const") != 0)
+	nf = 2 + vt_below(&rng, 4);		/* a shape needs a band */
+    else if (strcmp(c.kind, "iacc") == 0 || strcmp(c.kind, "irej") == 0)
 	nf = 1;
     else if (strcmp(c.kind, "exact") == 0 || strcmp(c.kind, "det") == 0)
 	nf = 1 + vt_below(&rng, 3);
@@ -546,10 +650,10 @@ static void run_case(const char *table, uint64_t seed, int row)
     make_noise(&sc, &c, &rng, &nz, true_nf, true_tr);
     vt_put("{\"e\":\"Cfg\",\"id\":%d,\"ty\":\"%s\",\"r\":%d,\"c\":%d,"
 	    "\"sn\":%d,\"st\":%d,\"grid\":\"%s\",\"kind\":\"%s\","
-	    "\"vec\":\"%s\",\"ud\":\"%s\",\"nf\":%d,\"pts\":%d,\"nstd\":%d,"
-	    "\"fm\":\"%s\"}",
-	    c.id, c.type, c.r, c.c, c.sn, c.st, c.grid, c.kind, c.vec, c.ud, nf,
-	    nz.n, sc.nstd, sc.ab ? "ab" : "m");
+	    "\"vec\":\"%s\",\"ud\":\"%s\",\"sh\":\"%s\",\"nf\":%d,\"pts\":%d,"
+	    "\"nstd\":%d,\"fm\":\"%s\"}",
+	    c.id, c.type, c.r, c.c, c.sn, c.st, c.grid, c.kind, c.vec, c.ud, c.sh,
+	    nf, nz.n, sc.nstd, sc.ab ? "ab" : "m");
     vt_end_line();
 
     memset(&ref, 0, sizeof(ref));
@@ -569,6 +673,38 @@ static void run_case(const char *table, uint64_t seed, int row)
 	/* two standards only: too few for every type */
 	sc.nstd = 2;
 	one_solve(&sc, vcp, &nz, 1, nseed, NULL, &w);
+    } else if (strcmp(c.kind, "agree") == 0) {
+	/*
+	 * The same noisy readings solved under two declarations that agree
+	 * at calibration frequency j (> 0) and differ everywhere else (noise
+	 * floor 30 x larger, tracking unchanged: another floor / tracking
+	 * ratio, and never tighter than the first declaration): the error
+	 * terms at frequency j must be the same.
+	 */
+	noise_t nz2;
+	int j = 1 + vt_below(&rng, sc.nf - 1);
+
+	memset(&nz2, 0, sizeof(nz2));
+	nz2.n = sc.nf;
+	nz2.have_tr = 1;
+	for (int k = 0; k < sc.nf; ++k) {
+	    nz2.nf[k] = true_nf[k] * (k == j ? 1.0 : 30.0);
+	    nz2.tr[k] = true_tr[k];
+	    sc.noise_nf[k] = true_nf[k];
+	    sc.noise_tr[k] = true_tr[k];
+	}
+	for (int si = 0; si < sc.nstd; ++si)
+	    sc.std[si].scale = 0.3;
+	one_solve(&sc, vcp, &nz, 1, nseed, "a1", &w);
+	one_solve(&sc, vcp, &nz2, 1, nseed, "a2", &clr);
+	if (w.added && clr.added) {
+	    snprintf(path, sizeof(path), "%s/merror-%d-%d.vnacal", g_tmp,
+		    (int)getpid(), row);
+	    (void)LIB(vnacal_set_dprecision(vcp, 17));
+	    if (LIB(vnacal_save(vcp, path)) == 0)
+		same = compare_saved_at(path, "a1", "a2", j, sc.nf, 1e-9);
+	    (void)unlink(path);
+	}
     } else if (strcmp(c.kind, "exact") == 0 || strcmp(c.kind, "det") == 0) {
 	if (strcmp(c.kind, "det") == 0)
 	    sc.nstd = 3;		/* short, open, match: exactly determined */
